@@ -120,7 +120,7 @@ func getCertificateInfo(c *x509.Certificate) (Info, error) {
 	}
 
 	if len(sans) > 0 {
-		info.Attributes = append(info.Attributes, Attribute{"SANs", strings.Join(sans, ", ")})
+		info.Attributes = append(info.Attributes, Attribute{"SANs", joinNames(sans)})
 	}
 
 	info.Attributes = append(info.Attributes, Attribute{"Signature algorithm", certSignatureAlgorithm(c)})
@@ -138,6 +138,21 @@ func sanIPString(ip net.IP) string {
 		}
 	}
 	return ip.String()
+}
+
+// joinNames joins the items of a list with ", ". An item that is empty, begins with a
+// double quote or contains the separator itself is written in double quotes, with \"
+// and \\ for a quote and a backslash inside, so that the list can be read in one way
+// only (an rfc822Name may have a quoted local part that contains ", ").
+func joinNames(items []string) string {
+	shown := make([]string, len(items))
+	for i, s := range items {
+		if s == "" || s[0] == '"' || strings.Contains(s, ", ") {
+			s = `"` + strings.NewReplacer(`\`, `\\`, `"`, `\"`).Replace(s) + `"`
+		}
+		shown[i] = s
+	}
+	return strings.Join(shown, ", ")
 }
 
 // certSignatureAlgorithm names the signature algorithm of c. An algorithm that
@@ -256,7 +271,7 @@ func getCSRInfo(c *x509.CertificateRequest) (Info, error) {
 	}
 
 	if len(sans) > 0 {
-		info.Attributes = append(info.Attributes, Attribute{"SANs", strings.Join(sans, ", ")})
+		info.Attributes = append(info.Attributes, Attribute{"SANs", joinNames(sans)})
 	}
 
 	info.Attributes = append(info.Attributes, Attribute{"Signature algorithm", c.SignatureAlgorithm.String()})
